@@ -1183,10 +1183,11 @@ fn run_ops(ops: &[(String, Op)], cleanup: bool, out: &mut String, boxes0: isize,
             // releases observed by the allocator
             let mut freed: Vec<usize> = Vec::new();
             at::drain_freed(|b| {
+                // a released block of the `RcBox<Node>` layout that was never registered as an
+                // object is not an object (e.g. a `Vec<(Node, Links)>` buffer of the library
+                // that happens to have the same size and alignment): not part of `F`
                 if let Some(&o) = w.by_block.get(&b) {
                     freed.push(o);
-                } else {
-                    freed.push(usize::MAX);
                 }
             });
             for &o in &freed {
